@@ -596,6 +596,8 @@ func (t *Teamserver) handleRequest(id string) {
 		if err != nil {
 			logger.Error("Failed to close client (" + id + ") socket")
 		}
+		// the socket is closed: do not keep its record in the client table
+		t.RemoveClient(id)
 		return
 	} else {
 
@@ -790,13 +792,12 @@ func (t *Teamserver) SendEvent(id string, pk packager.Package) error {
 		client.Mutex.Lock()
 
 		err = client.Connection.WriteMessage(websocket.BinaryMessage, buffer.Bytes())
+		// release the per-client lock on every path: returning with it held makes the
+		// next send to this client - and so every later broadcast - block forever
+		client.Mutex.Unlock()
 		if err != nil {
-			// TODO: comment this line out as it seems to crash the server
-			//t.Clients[id].Mutex.Unlock()
 			return err
 		}
-
-		client.Mutex.Unlock()
 
 	} else {
 		return errors.New(fmt.Sprintf("client (%v) doesn't exist anymore", colors.Red(id)))
